@@ -529,10 +529,15 @@ func runStorm(c caseT) obsT {
 	var val *resource.Value
 	var col *resource.Collection
 	ids := []string{"aaaaaaaa", "bbbbbbbb", "cccccccc"}
+	// (a third of the resources are configured with an equivalence: different code path in the forwarders)
+	var ropts []resource.Option
+	if rnd.Intn(3) == 0 {
+		ropts = append(ropts, resource.WithNoDuplicates())
+	}
 	if c.Res == "val" {
-		val = resource.NewValue(resource.WithInitialValue(msg(0)))
+		val = resource.NewValue(append(ropts, resource.WithInitialValue(msg(0)))...)
 	} else {
-		col = resource.NewCollection(resource.WithInitialRecord(ids[0], msg(0)), resource.WithInitialRecord(ids[1], msg(0)))
+		col = resource.NewCollection(append(ropts, resource.WithInitialRecord(ids[0], msg(0)), resource.WithInitialRecord(ids[1], msg(0)))...)
 	}
 	type sub struct {
 		cancel context.CancelFunc
@@ -688,7 +693,7 @@ func runStorm(c caseT) obsT {
 	if col != nil && o.WriterStall == 0 {
 		_, _ = col.Update(ids[2], msg(7), resource.WithCreateIfAbsent())
 		ctx, cancel := context.WithCancel(context.Background())
-		ch := col.PullID(ctx, ids[2], resource.WithBackpressure(true))
+		ch := col.PullID(ctx, ids[2], resource.WithBackpressure(true), resource.WithUpdatesOnly(c.Iter%2 == 1))
 		got := make(chan struct{})
 		go func() {
 			for range ch {
